@@ -272,7 +272,7 @@ def run_recon(case):
 
 # ------------------------------------------------------------------ STFT
 FUNCS = ["identity", "reverse", "scale"]
-STYLES = ["direct", "decorator", "partial-chain", "call-override", "partial-reassign"]
+STYLES = ["direct", "decorator", "partial-chain", "call-override", "partial-reassign", "partial-separately"]
 
 
 def gen_stft(run):
@@ -291,7 +291,7 @@ def gen_stft(run):
                       if ola == "none" and (ola_wnd != "absent" or ola_norm != "absent"):
                         continue
                       i += 1
-                      yield (size, hop, n, func, trans, ba, wk, ola, ola_wnd, ola_norm, STYLES[i % 5])
+                      yield (size, hop, n, func, trans, ba, wk, ola, ola_wnd, ola_norm, STYLES[i % len(STYLES)])
   # the analysis window handed over as a tuple / Stream / generator object, and a synthesis hop /
   # size that differs from the analysis one (ola_hop, ola_size: the prefixed option wins)
   for size in (2, 3, 4):
@@ -384,6 +384,11 @@ def run_stft(case):
         right.setdefault("ola_wnd", None)
         right.setdefault("ola_normalize", True)
       proc = stft(**wrong)(**right)(func)
+    elif style == "partial-separately":
+      # size and hop replaced in two separate partial steps: the configuration in between (new size, old
+      # hop > size) is not a configuration anybody runs - only the final one counts
+      big = 2 * size + 1
+      proc = stft(**dict(kws, size=big, hop=big))(size=size)(hop=(hop if hop is not None else size))(func)
     else:
       wrong = dict(kws, size=size + 3)
       wrong.pop("hop", None)
@@ -464,6 +469,8 @@ def run_stft(case):
       ola_kw["hop"] = size
     ola_kw.setdefault("wnd", None)
     ola_kw.setdefault("normalize", True)
+  if style == "partial-separately" and hop is None:
+    ola_kw["hop"] = size
   ola_kw.update(extra_ola)          # an ola_-prefixed option wins over the blocking size / hop
   if olak == "fake":
     if fake_calls != [ola_kw]:
